@@ -3,7 +3,7 @@ CONSTANTS
   Scen1 <- ScenB1T
   Scen2 <- ScenB2T
   ClearChoices = {TRUE, FALSE}
-  Installs = {TRUE}
+  Installs = {TRUE, FALSE}
   ResetsResult = TRUE
 CONSTRAINT ExportC
 INVARIANT ResultRight
